@@ -375,6 +375,80 @@ interface the constructor ids are pairwise distinct (the `switch id` is a functi
 def Schema.wf (S : Schema) : Bool :=
   S.ctors.toList.all Ctor.ok && S.ifaces.toList.all (idsDistinct S)
 
+/-! ### `SetFlags` (gen/_template/set_flags.tmpl): flag bits derived from field presence
+
+Before `EncodeBare` writes anything it calls `SetFlags`, which ORs into each flags word the bit of
+every conditional field whose Go value is not the zero value.  On value trees: a conditional
+field counts when it is not `absent` and not `bool false`. -/
+
+mutual
+/-- Go's zero test used by `SetFlags` / the generated `Zero()` on the tree form of a field value
+of type `t`: `0`, `0.0`/`-0.0`, `""`, all-zero int128/int256, a nil slice, `false`, a nil interface
+(`absent`), a struct all of whose fields are zero. A non-nil interface is never zero. -/
+def Val.isZero (S : Schema) : Ty → Val → Bool
+  | _, .absent => true
+  | _, .bool b => !b
+  | .double, .num n => n == 0 || n == 2 ^ 63
+  | _, .num n => n == 0
+  | .int128, .raw b => b.all (· == 0)
+  | .int256, .raw b => b.all (· == 0)
+  | _, .raw b => b.isEmpty
+  | _, .vec .nil => true
+  | .ctor _ _, .obj c fs =>
+    match S.ctors[c]? with
+    | some ct => Vals.allZero S ct.fields fs
+    | none => false
+  | _, _ => false
+def Vals.allZero (S : Schema) : List Field → Vals → Bool
+  | f :: fs, .cons v vs => v.isZero S f.ty && Vals.allZero S fs vs
+  | _, _ => true
+end
+
+/-- Bits that `SetFlags` ORs into flags word number `k`. -/
+def presenceBits (S : Schema) (k : Nat) : List Field → Vals → Nat
+  | f :: fs, .cons v vs =>
+    (match f.cond with
+     | some (k', bit) => if k' = k ∧ v.isZero S f.ty = false then 2 ^ bit else 0
+     | none => 0) ||| presenceBits S k fs vs
+  | _, _ => 0
+
+/-- `SetFlags` of one constructor followed by the presence view `EncodeBare` takes: flags word
+number `j` gets the presence bits ORed in; a conditional field whose bit is clear in the final
+word is not part of the value (`absent`; it holds its zero value then). -/
+def applyFlags (S : Schema) (allF : List Field) (allV : Vals) : Nat → List Nat → List Field → Vals → Vals
+  | j, env, f :: fs, .cons v vs =>
+    match f.cond with
+    | none =>
+      if f.ty = .flags then
+        match v with
+        | .num w =>
+          .cons (.num (w ||| presenceBits S j allF allV))
+            (applyFlags S allF allV (j + 1) (env ++ [w ||| presenceBits S j allF allV]) fs vs)
+        | _ => .cons v (applyFlags S allF allV (j + 1) (env ++ [0]) fs vs)
+      else .cons v (applyFlags S allF allV j env fs vs)
+    | some (k, bit) =>
+      if f.ty = .trueFlag then .cons v (applyFlags S allF allV j env fs vs)
+      else .cons (if hasBit (envWord env k) bit then v else .absent) (applyFlags S allF allV j env fs vs)
+  | _, _, _, vs => vs
+
+mutual
+/-- `SetFlags` on every constructor of the tree (what the nested `Encode` calls do on the way). -/
+def normVal (S : Schema) : Val → Val
+  | .obj c fs =>
+    let fs' := normVals S fs
+    match S.ctors[c]? with
+    | some ct => .obj c (applyFlags S ct.fields fs' 0 [] ct.fields fs')
+    | none => .obj c fs'
+  | .vec xs => .vec (normVals S xs)
+  | v => v
+def normVals (S : Schema) : Vals → Vals
+  | .nil => .nil
+  | .cons v vs => .cons (normVal S v) (normVals S vs)
+end
+
+/-- The generated `Encode`: `SetFlags` everywhere, then write. -/
+def encGo (S : Schema) (t : Ty) (v : Val) : Option Bytes := encTy S t (normVal S v)
+
 /-! ### The MTProto and end-to-end schemas as a Lean term (regenerated in `Gen/C21.lean`) -/
 
 /-- Numeric encoding of `Ty` used by the regenerated facts. -/
